@@ -392,6 +392,10 @@ def _validate_original_url(url: str, prefix: str) -> str:
     if parsed.scheme or parsed.netloc:
         # Not a relative URL — fall back to the prefix root
         return prefix or "/"
+    # Browsers (WHATWG URL) read "\\" as "/" and drop tab/CR/LF, so "/\\host", "///host"
+    # or "/\t/host" would leave this origin although urlparse sees no netloc.
+    if not url.startswith("/") or url[1:2] in ("/", "\\") or any(c in url for c in "\t\r\n"):
+        return prefix or "/"
     if prefix and not url.startswith(prefix):
         return prefix or "/"
     return url
@@ -419,6 +423,10 @@ def _validate_return_to(url: str, allowed_origins: frozenset[str] = frozenset())
     if parsed.scheme not in ("http", "https"):
         return ""
     if not parsed.netloc:
+        return ""
+    # Browsers (WHATWG URL) end the authority at "\\" as well as at "/":
+    # "https://evil.example\\@allowed.example/" is evil.example to them.
+    if "\\" in parsed.netloc:
         return ""
     # localhost with any port is always allowed
     hostname = parsed.hostname or ""
